@@ -178,6 +178,17 @@ pub mod rec {
             Err(HandlerErr::Boom(code).into())
         }
     }
+    /// The response of an instantiate handler: when it was handed `zeta` coins it also spawns a child contract
+    /// (code id 1 of the multitest chains, see mt::seeded_app) -- the factory pattern; on the mock dependencies
+    /// of the entry-point flights no `zeta` is ever sent.
+    pub fn resp_spawning<E: From<HandlerErr>>(name: &str, code: u32, ok: bool, funds: &[sylvia::cw_std::Coin]) -> Result<Response, E> {
+        let r: Response = resp(name, code, ok)?;
+        if funds.iter().any(|c| c.denom == "zeta") {
+            return Ok(r.add_message(sylvia::cw_std::WasmMsg::Instantiate { admin: None, code_id: 1, msg: sylvia::cw_std::Binary::from(b"{}".to_vec()),
+                                                                         funds: vec![], label: "child".to_string() }));
+        }
+        Ok(r)
+    }
     pub fn qresp<E: From<HandlerErr>>(name: &str, code: u32, ok: bool) -> Result<QResp, E> {
         if ok {
             Ok(QResp { h: name.to_string(), code })
